@@ -82,8 +82,39 @@ impl Property for C18 {
                 },
             });
         }
+        // searches in half of the runs: their time-outs are further timer entries, and some are
+        // placed so that a time-out (1.5 s) or an end-game expiry (3 s) lands on the 5-second grid
+        // of the periodic re-bootstrap (same-instant interleavings of timer and bootstrap events)
+        let with_searches = rng.chance(1, 2);
+        if with_searches {
+            // a slow socket keeps the handler inside a send while the bootstrap task completes: the
+            // knob that moves the handler/bootstrap interleaving (DESIGN.md 2.4)
+            if rng.chance(2, 3) {
+                sc.net.stall_ppm = *rng.pick(&[50_000u32, 200_000, 500_000]);
+                sc.net.stall_max_ms = *rng.pick(&[20u64, 300, 2_000]);
+            }
+            for s in sc.world.stubs.iter_mut() {
+                if rng.chance(1, 2) {
+                    s.get_peers_answer = Some(Answer::Never);
+                }
+            }
+        }
         sc.reals.push(real);
         sc.at(0, Op::Start { node: 0 });
+        if with_searches {
+            let n_s = rng.range(5, 120);
+            for _ in 0..n_s {
+                let k = rng.range(1, (end / 5_000).max(2) - 1);
+                let off = match rng.below(4) {
+                    0 => 3_500,
+                    1 => 2_000,
+                    2 => 500,
+                    _ => rng.range(0, 4_999),
+                };
+                sc.at(k * 5_000 + off + sc.net.lat_max_ms.min(1) * rng.range(0, 3), Op::Search { node: 0, ih: rng.id20(), announce: rng.chance(1, 3) });
+            }
+            sc.params.insert("searches".into(), n_s as i64);
+        }
         let period = *rng.pick(&[5_000u64, 7_000, 30_000]);
         let count = (end / period).min(4000) as u32;
         sc.at(1, Op::SampleEvery { node: 0, period_ms: period, count, table: false });
@@ -138,8 +169,11 @@ impl Property for C18 {
                 ),
             );
         }
-        // no searches in this family: nothing but the refresh timeout may be pending
-        if last.3 > 2 {
+        // without searches nothing but the refresh timeout may be pending
+        if sc.param("searches") > 0 {
+            v.hit("run_with_searches");
+        }
+        if sc.param("searches") == 0 && last.3 > 2 {
             v.violate(
                 "C18",
                 "timer_queue",
@@ -159,12 +193,12 @@ impl Property for C18 {
         v
     }
     fn rule(&self) -> &'static str {
-        "one real node, 0..9 stub contacts (steady, flapping, going silent; as nodes or as routers), optional loss/outage, 3 min..12 h of virtual time, hook counters sampled every 5..30 s; non-trivial = at least one bootstrap completion and two refresh rounds; distinct = distinct order digests of the event log"
+        "one real node, 0..9 stub contacts (steady, flapping, going silent; as nodes or as routers), optional loss/outage, in half of the runs 5..120 searches (some contacts silent for get_peers) placed so that their 1.5 s time-outs and 3 s end-game expiries land on the 5-second re-bootstrap grid, with socket stalls in two thirds of those runs, 3 min..12 h of virtual time, hook counters sampled every 5..30 s; non-trivial = at least one bootstrap completion and two refresh rounds; distinct = distinct order digests of the event log"
     }
     fn assumptions(&self) -> Vec<&'static str> {
         vec!["refresh rounds and bootstrap completions are counted by hook H3/H4 counters inside the node", "await-granularity interleavings on a single-threaded runtime"]
     }
     fn required_reach(&self) -> Vec<&'static str> {
-        vec!["rebootstrapped_100_times"]
+        vec!["rebootstrapped_100_times", "run_with_searches"]
     }
 }
